@@ -25,6 +25,16 @@ fn ctx_of(p: u64, mode: Mode) -> Context {
     Context::new(NonZeroU64::new(p).unwrap(), rm(mode))
 }
 
+/// the same context reached through the builder methods, in both orders
+fn ctx_built(p: u64, mode: Mode) -> [Context; 3] {
+    let nz = NonZeroU64::new(p).unwrap();
+    [
+        Context::default().with_precision(nz).with_rounding_mode(rm(mode)),
+        Context::default().with_rounding_mode(rm(mode)).with_prec(p).expect("with_prec(p > 0)"),
+        ctx_of(1 + p % 7, ALL_MODES[(p % 7) as usize]).with_prec(p as u128).expect("with_prec(p > 0)").with_rounding_mode(rm(mode)),
+    ]
+}
+
 fn check_result(v: &mut Verdict, what: &str, got: &BigDecimal, want: &Dec, input_digits: u64, p: u64) {
     let g = dec_of(got);
     ensure!(v, g.eq_val(want), format!("C07/value:{}", what), "{} = {} expected {}", what, g.show(), want.show());
@@ -66,6 +76,20 @@ pub fn check_prec(c: &PrecCase) -> Verdict {
     check_result(&mut v, "Context::round_decimal_ref(&BigDecimal)", &ctx.round_decimal_ref(&x), &want, nd, c.p);
     check_result(&mut v, "Context::round_decimal_ref(BigDecimalRef)", &ctx.round_decimal_ref(x.to_ref()), &want, nd, c.p);
     check_result(&mut v, "BigDecimalRef::round_with_context", &x.to_ref().round_with_context(&ctx), &want, nd, c.p);
+    for (k, bctx) in ctx_built(c.p, mode).iter().enumerate() {
+        ensure!(v, bctx.precision().get() == c.p && crate::conv::mode_of(bctx.rounding_mode()) == mode, format!("C07/context-builder:{}", k), "context builder {} reports ({}, {:?}) instead of ({}, {})", k, bctx.precision(), bctx.rounding_mode(), c.p, mode.name());
+        check_result(&mut v, ["round_decimal_ref via with_precision+with_rounding_mode", "round_decimal_ref via with_rounding_mode+with_prec", "round_decimal_ref via a re-configured context"][k], &bctx.round_decimal_ref(&x), &want, nd, c.p);
+    }
+    // references whose sign was flipped / dropped without touching the digits round like the corresponding value
+    {
+        let neg_int = -int.clone();
+        let want_neg = round_to_prec(&neg_int, c.d.scale as i128, c.p, mode);
+        check_result(&mut v, "(-ref).round_with_context", &(-x.to_ref()).round_with_context(&ctx), &want_neg, nd, c.p);
+        check_result(&mut v, "Context::round_decimal_ref(-ref)", &ctx.round_decimal_ref(-x.to_ref()), &want_neg, nd, c.p);
+        let abs_int = num_bigint::BigInt::from(int.magnitude().clone());
+        let want_abs = round_to_prec(&abs_int, c.d.scale as i128, c.p, mode);
+        check_result(&mut v, "ref.abs().round_with_context", &x.to_ref().abs().round_with_context(&ctx), &want_abs, nd, c.p);
+    }
     // big integers: the unscaled integer as a value of its own
     let want_int = round_to_prec(&int, 0, c.p, mode);
     check_result(&mut v, "Context::round_decimal_ref(&BigInt)", &ctx.round_decimal_ref(&int), &want_int, nd, c.p);
@@ -104,9 +128,40 @@ pub fn check_sum(c: &SumCase) -> Verdict {
     let r2 = ctx.add_refs(a.to_ref(), b.to_ref());
     let mut dest = BigDecimal::from(7);
     ctx.add_refs_into(&a, b.to_ref(), &mut dest);
-    for (what, got) in [("add_refs(&,&)", &r1), ("add_refs(Ref,Ref)", &r2), ("add_refs_into", &dest)] {
+    let r3 = ctx_built(c.p, mode)[1].add_refs(&a, b.to_ref());
+    for (what, got) in [("add_refs(&,&)", &r1), ("add_refs(Ref,Ref)", &r2), ("add_refs_into", &dest), ("add_refs with a built context", &r3)] {
         let g = dec_of(got);
         ensure!(v, g.eq_val(&want), format!("C07/sum:{}", what), "{} = {} expected {} (exact sum {})", what, g.show(), want.show(), exact.show());
+        if nd <= c.p && !exact.is_zero() {
+            ensure!(v, g == want, format!("C07/sum-padding:{}", what), "{} = {} expected the representation {} ({} digits)", what, g.show(), want.show(), c.p);
+        }
+    }
+    // a sign-flipped reference as an operand: (-a) + b
+    {
+        let exact_n = c.a.dec().neg().add(&c.b.dec());
+        let want_n = round_to_prec(&exact_n.int, exact_n.scale, c.p, mode);
+        let g = dec_of(&ctx.add_refs(-a.to_ref(), &b));
+        ensure!(v, g.eq_val(&want_n), "C07/sum:add_refs(-Ref,&)", "add_refs(-a, b) = {} expected {} (exact {})", g.show(), want_n.show(), exact_n.show());
+    }
+    // where the exact sum sits relative to the p-th digit
+    if !exact.is_zero() {
+        let digits = exact.int.magnitude().to_string();
+        let p = c.p as usize;
+        v.labels.push(if digits.len() <= p {
+            "sum-fits-p-digits"
+        } else {
+            let tail = &digits[p..];
+            let rest_zero = tail[1..].bytes().all(|b| b == b'0');
+            match (tail.as_bytes()[0], rest_zero) {
+                (b'5', true) => "sum-tail-exact-tie",
+                (b'0', true) => "sum-tail-zero",
+                (b'5', false) if tail[1..].starts_with("000") => "sum-tail-just-above-tie",
+                (b'4', false) if tail[1..].starts_with("999") => "sum-tail-just-below-tie",
+                _ => "sum-tail-other",
+            }
+        });
+    } else {
+        v.labels.push("sum-zero");
     }
     let _ = nd;
     v
@@ -146,7 +201,7 @@ fn prec_strategy(max_len: usize) -> BoxedStrategy<PrecCase> {
         .prop_map(|(spec, neg, scale, where_, pos, off, mode, zero)| {
             let digits = if zero == 0 { "0".to_string() } else { gen::digits_of(&spec) };
             let nd = digits.len() as u64;
-            let cut = if nd >= 3 { 1 + (spec.aux as u64 % (nd - 2)) } else { 1 };
+            let cut = gen::tail_cut(&spec);
             let p = match where_ {
                 0..=3 => cut,                         // at the tail family's cut
                 4 => nd,                              // equal to the digit count
@@ -181,7 +236,7 @@ fn extreme_scale_strategy() -> BoxedStrategy<PrecCase> {
 }
 
 fn sum_strategy(max_len: usize) -> BoxedStrategy<SumCase> {
-    (gen::decimal(max_len, 2000), gen::sdigits(max_len.max(800)), gen::gap_strategy(700), any::<bool>(), 1u64..=120, 0..7u8, 0..6u8)
+    (gen::decimal(max_len, 2000), gen::sdigits(max_len.max(800)), gen::gap_strategy(700), any::<bool>(), prop_oneof![3 => 1u64..=120, 1 => 1u64..=900], 0..7u8, 0..6u8)
         .prop_map(|(a, bint, gap, dir, p, mode, special)| {
             let bscale = if dir { a.scale + gap as i64 } else { a.scale - gap as i64 };
             let b = match special {
@@ -201,11 +256,35 @@ fn sum_strategy(max_len: usize) -> BoxedStrategy<SumCase> {
                     let off = (gap % 5) as i64 - 2;
                     let b2 = D::new(format!("{}{}", if a.is_neg() { "" } else { "-" }, bint.trim_start_matches('-')), a.scale + bl + off);
                     let p2 = (k as u64 + (gap % 3)).max(1); // k, k+1 or k+2 digits
-                    return SumCase { a: a2, b: b2, p: p2 - 1 + (gap % 2), mode };
+                    return SumCase { a: a2, b: b2, p: (p2 - 1 + (gap % 2)).max(1), mode };
                 }
                 _ => D::new(bint, bscale),
             };
             SumCase { a, b, p, mode }
+        })
+        .boxed()
+}
+
+/// sums whose EXACT value has a designed tail at the p-th digit (tie, just above / below a tie, all nines, ...):
+/// S is built from the tail families, a is random, b = S - a, so both operands are ordinary numbers whose digits overlap
+fn designed_sum_strategy(max_len: usize) -> BoxedStrategy<SumCase> {
+    (gen::digspec_shapes(max_len, TAIL_SHAPES), any::<bool>(), -300i64..=300, gen::sdigits(max_len), -40i64..=40, 0..7u8, 0..8u8, 0u64..=5)
+        .prop_map(|(spec, neg, scale, aint, da, mode, where_, off)| {
+            let digits = gen::digits_of(&spec);
+            let nd = digits.len() as u64;
+            let cut = gen::tail_cut(&spec);
+            let p = match where_ {
+                0..=4 => cut,
+                5 => nd,
+                6 => nd + 1 + off,
+                _ => nd.saturating_sub(1).max(1),
+            }
+            .max(1);
+            let s = Dec::from_str_int(&if neg && digits != "0" { format!("-{}", digits) } else { digits }, scale as i128);
+            // a anywhere around S: same scale region, shifted by da digits
+            let a = D::new(aint, scale + da);
+            let b = s.sub(&a.dec());
+            SumCase { a, b: D::new(b.int.to_string(), b.scale as i64), p, mode }
         })
         .boxed()
 }
@@ -232,5 +311,6 @@ pub fn run(ctx: &Ctx) {
         check_prec,
     );
     ctx.generated("extreme-scales", "prec", t.pick(50_000, 500_000), "scales within 80 of i64::MIN / i64::MAX with p such that the resulting scale is representable", extreme_scale_strategy, check_prec);
-    ctx.generated("context-sums", "sum", t.pick(100_000, 5_000_000), "a + b rounded by Context::add_refs / add_refs_into: gaps 0..700, cancellations, all-nines carries, p in 1..120", move || sum_strategy(max_len.min(400)), check_sum);
+    ctx.generated("context-sums-designed-tails", "sum", t.pick(100_000, 3_000_000), "a + b whose exact sum has a tie / near-tie / all-nines / zero tail at the p-th digit (b = S - a); p at the cut, = digits, above, below", move || designed_sum_strategy(max_len.min(300)), check_sum);
+    ctx.generated("context-sums", "sum", t.pick(100_000, 5_000_000), "a + b rounded by Context::add_refs / add_refs_into: gaps 0..700, cancellations, all-nines carries, p in 1..120 (a quarter up to 900, beyond the digits of the sum)", move || sum_strategy(max_len.min(400)), check_sum);
 }
